@@ -30,7 +30,9 @@ REV = {v: k for k, v in PATHS.items()}
 def contents(seed):
     rng = random.Random(seed)
     big = lambda tag: (tag.encode() + bytes(rng.randrange(256) for _ in range(1024))) * 1100  # noqa: E731  ~1.1 MiB
-    return {"c0": b"", "c1": b"line one\nline two\n", "c2": b"crlf one\r\ncrlf two\r\n", "big1": big("B1"), "big2": big("B2")}
+    # c3 has the size of c1: an edit between the two inside one second leaves only the sub-second mtime to tell
+    return {"c0": b"", "c1": b"line one\nline two\n", "c2": b"crlf one\r\ncrlf two\r\n", "c3": b"LINE ONE\nline two\n",
+            "big1": big("B1"), "big2": big("B2")}
 
 
 class Dir:
@@ -45,7 +47,7 @@ class Dir:
         self.digest = {c: hashlib.md5(b).hexdigest() for c, b in self.contents.items()}
         self.rev_digest = {v: k for k, v in self.digest.items()}
         self.jobs = jobs
-        self.tick = 1_700_000_000
+        self.tick_ns = 1_700_000_000_000_000_000
         self.state = None
         self.last_obj = None
         self.first_oid = None
@@ -63,8 +65,9 @@ class Dir:
         os.makedirs(os.path.dirname(fp), exist_ok=True)
         with open(fp, "wb") as fh:
             fh.write(self.contents[c])
-        self.tick += 3
-        os.utime(fp, (self.tick, self.tick))
+        # edits are a quarter of a second apart (several inside one second), in place (same inode)
+        self.tick_ns += 250_000_000
+        os.utime(fp, ns=(self.tick_ns, self.tick_ns))
 
     def odb(self, state_kind):
         from dvc_data.hashfile.db.local import LocalHashFileDB
@@ -209,7 +212,7 @@ def directed_cases():
     real = {"op": "Build", "cfg": {"state": "real"}}
     cases = []
     for i, p in enumerate(PATHS):
-        newc = "c1" if init[p] != "c1" else "c2"
+        newc = "c1" if init[p] != "c1" else "c3"
         ops = [real, real, {"op": "Edit", "p": p, "c": newc}, real, {"op": "Sub", "d": "s"}, {"op": "Build", "cfg": {"state": "noop"}}]
         if i % 2:
             ops = [{"op": "BuildOther"}] + ops[:3] + [{"op": "BuildOther"}] + ops[3:]
